@@ -9,7 +9,7 @@ from openpectus.engine.models import SystemTagName
 UNIT = 0.5            # one model clock unit in seconds (exact in binary)
 T0 = 1000.0
 INAMES = ["Start", "Stop", "Pause", "Unpause", "Hold", "Unhold", "Restart", "Info"]
-UODS = ["CmdA", "CmdB", "CmdC"]          # CmdB and CmdC are declared as overlapping
+UODS = ["CmdA", "CmdB", "CmdC"]          # overlap groups: cfg["overlaps"] (default: CmdB and CmdC overlap)
 
 
 def out_names(cfg):
@@ -45,7 +45,8 @@ class Run:
         plain = tuple(n for n, sv in zip(self.names, cfg["safe"]) if sv is None)
         self._now = [T0]
         uod = make_uod(self.cmd_log, outputs_safe=safe, outputs_plain=plain, with_acc=False, now_fn=lambda: self._now[0],
-                       id_in_log=True, default_dur=int(cfg.get("user_dur", 0)))
+                       id_in_log=True, default_dur=int(cfg.get("user_dur", 0)),
+                       overlaps=tuple(tuple(UODS[i] for i in g) for g in cfg.get("overlaps", [[1, 2]])))
         # registers are created safe-first by make_uod; the model indexes outputs in case order, so reorder the view
         for n, v in zip(self.names, cfg["outs0"]):
             uod.tags[n].set_value(float(v), T0)
@@ -363,8 +364,9 @@ def request_coq(rid, rq, user, tracked):
 
 def input_to_coq(case, obs):
     cfg = case["cfg"]
-    c = ("{| c_safe := %s; c_overlaps := [[1%%nat; 2%%nat]]; c_outs0 := %s |}"
-         % (lst(["None" if s is None else f"(Some {z(s)})" for s in cfg["safe"]]), lst([z(v) for v in cfg["outs0"]])))
+    c = ("{| c_safe := %s; c_overlaps := %s; c_outs0 := %s |}"
+         % (lst(["None" if s is None else f"(Some {z(s)})" for s in cfg["safe"]]),
+            lst([lst([nat(i) for i in g]) for g in cfg.get("overlaps", [[1, 2]])]), lst([z(v) for v in cfg["outs0"]])))
     ops = []
     for op, (lo, hi), v in zip(case["ops"], obs["ids"], obs["views"]):
         k = op[0]
